@@ -1,2 +1,3 @@
+pub mod disk;
 pub mod net1;
 pub mod p2p;
